@@ -43,7 +43,7 @@ Example C04_example :
 Proof. vm_compute. split; reflexivity. Qed.
 
 (* ---- the interleaving level (ConcModel.v): Prefetcher is the identity under EVERY schedule ---- *)
-From PD Require ConcModel ConcInv ConcLive ConcOwner ConcSnap ConcPM.
+From PD Require ConcModel ConcInv ConcLive ConcOwner ConcSnap ConcPM ConcPMU.
 
 (* For the Prefetcher (_SingleThreadedMapper), any prefetch_factor / snapshot_frequency / source (failing or not), any
    consumer script incl. reset and reset(loaded state), along EVERY interleaving of the read thread and the consumer at
@@ -84,5 +84,51 @@ Theorem C04_parallel_mapper_index_discipline : forall (c : ConcModel.cfg), ConcM
 Proof. exact ConcPM.parallel_mapper_index_discipline. Qed.
 Print Assumptions C04_parallel_mapper_index_discipline.
 
-(* in_order=False (no sorter: results in completion order) is decided on every run by the scheduler-driven lockstep
-   correspondence only *)
+(* ParallelMapper(in_order=False): results are delivered in completion order, so the claim is about the MULTISET.  Along every
+   interleaving of reader, workers and consumer (same granularity, same exclusion D10), in every reachable state, for every
+   value y: (#y among the items delivered) + (#y among the entries in flight: input queue — counted through map_fn —, results
+   held by workers, output queue, the item the consumer holds) = #y in map_fn over the source positions read so far
+   [ConcPMU.spec c base n = the values map_fn yields on positions base .. base+n-1; a position where the source ended or
+   raised, or where map_fn raised, yields none] *)
+Theorem C04_unordered_values_conserved : forall (c : ConcModel.cfg), ConcModel.k_pm c = true -> ConcModel.k_inorder c = false ->
+  forall script sched, ConcOwner.jt_free c (ConcModel.init script) sched = true ->
+  forall g, ConcModel.cur (ConcModel.run c sched (ConcModel.init script)) = Some g ->
+  forall y, ConcPM.cnt y (ConcModel.g_items g) + ConcPM.cnt y (ConcPMU.V c g) =
+            ConcPM.cnt y (ConcPMU.spec c (ConcModel.g_base g) (ConcModel.g_ridx g - ConcSnap.rpend (ConcModel.g_r g))).
+Proof. exact ConcPMU.unordered_values_conserved. Qed.
+Print Assumptions C04_unordered_values_conserved.
+
+(* nothing is invented or delivered twice ... *)
+Theorem C04_unordered_no_invention : forall (c : ConcModel.cfg), ConcModel.k_pm c = true -> ConcModel.k_inorder c = false ->
+  forall script sched, ConcOwner.jt_free c (ConcModel.init script) sched = true ->
+  forall g, ConcModel.cur (ConcModel.run c sched (ConcModel.init script)) = Some g ->
+  forall y, ConcPM.cnt y (ConcModel.g_items g) <= ConcPM.cnt y (ConcPMU.spec c (ConcModel.g_base g) (ConcModel.g_ridx g)).
+Proof. exact ConcPMU.unordered_no_invention. Qed.
+Print Assumptions C04_unordered_no_invention.
+
+(* ... and once nothing is in flight the delivered items ARE, as a multiset, map_fn over the positions read *)
+Theorem C04_unordered_multiset_when_drained : forall (c : ConcModel.cfg), ConcModel.k_pm c = true -> ConcModel.k_inorder c = false ->
+  forall script sched, ConcOwner.jt_free c (ConcModel.init script) sched = true ->
+  forall g, ConcModel.cur (ConcModel.run c sched (ConcModel.init script)) = Some g ->
+  ConcModel.g_q1 g = [] -> ConcModel.g_q2 g = [] -> ConcInv.w_hold (ConcModel.g_ws g) = 0 -> ConcPMU.cv (ConcModel.g_c g) = [] ->
+  ConcSnap.rpend (ConcModel.g_r g) = 0 ->
+  forall y, ConcPM.cnt y (ConcModel.g_items g) = ConcPM.cnt y (ConcPMU.spec c (ConcModel.g_base g) (ConcModel.g_ridx g)).
+Proof. exact ConcPMU.unordered_multiset_when_drained. Qed.
+Print Assumptions C04_unordered_multiset_when_drained.
+
+(* non-vacuity: an unordered run that has drained: 5 items delivered, a permutation-insensitive count matches *)
+Definition c04u_cfg : ConcModel.cfg :=
+  {| ConcModel.k_pm := true; ConcModel.k_nw := 2; ConcModel.k_inorder := false; ConcModel.k_mc := None; ConcModel.k_sf := 1;
+     ConcModel.k_xs := [3; 1; 3; 2]; ConcModel.k_err := None; ConcModel.k_f := fun x => Some (x + 10) |}.
+Definition c04u_sched : list (ConcModel.tid * ConcModel.mode) :=
+  concat (repeat [(ConcModel.TC, ConcModel.Go); (ConcModel.TG 0 ConcModel.GR, ConcModel.Go);
+                  (ConcModel.TG 0 (ConcModel.GW 1), ConcModel.Go); (ConcModel.TG 0 (ConcModel.GW 1), ConcModel.Go);
+                  (ConcModel.TG 0 (ConcModel.GW 0), ConcModel.Go)] 60).
+Example C04_unordered_example :
+  let sc := [ConcModel.KReset None; ConcModel.KNext; ConcModel.KNext; ConcModel.KNext; ConcModel.KNext; ConcModel.KNext] in
+  ConcOwner.jt_free c04u_cfg (ConcModel.init sc) c04u_sched = true /\
+  match ConcModel.cur (ConcModel.run c04u_cfg c04u_sched (ConcModel.init sc)) with
+  | Some g => ConcPM.cnt 13 (ConcModel.g_items g) = 2 /\ length (ConcModel.g_items g) = 4 /\ ConcModel.g_q2 g = []
+  | None => False
+  end.
+Proof. vm_compute. repeat split. Qed.
